@@ -152,6 +152,9 @@ let handle kind fs obs =
               | None -> (field ofs "match" = "0", shape ^ "-nomatch", cls))
            end
            else (true, ",den-skip", None)) in
-       (mobs, ok && ok2, true, Printf.sprintf "exec,%s,%s%s" expect (if fmt64 then "pe64" else "pe32") tag2, cls))
+       (* raw atom lists (explicit atoms= field): no semantic oracle, the comparison of verdict and save array with the model is the check *)
+       let contains s sub = (let n = String.length sub in let rec go i = i + n <= String.length s && (String.sub s i n = sub || go (i + 1)) in go 0) in
+       let rawtag = if field fs "atoms" = "-" then "" else if contains mobs "match=1" then ",raw-atoms,raw-match" else ",raw-atoms,raw-nomatch" in
+       (mobs, ok && ok2, true, Printf.sprintf "exec,%s,%s%s%s" expect (if fmt64 then "pe64" else "pe32") tag2 rawtag, cls))
   | _ -> ("!unknown-kind", false, false, "unknown", None)
 let () = run_driver handle
